@@ -8,6 +8,7 @@ from ..rules import common
 from . import c03
 
 TITLE = "Every session gets exactly one close; nothing before announce or after close"
+TECHNIQUE = 'custom static analysis over clang-14 CFG facts: exhaustiveness of the command switch against the enum, must-pass-through to handlers, order rules over the callback list, must-lockset'
 TCP, UDP = "iora::network::TcpEngine", "iora::network::UdpEngine"
 FILES = {TCP: "iora/network/detail/tcp_engine.hpp", UDP: "iora/network/detail/udp_engine.hpp"}
 CONNECT_FNS = {TCP: ("doConnect",), UDP: ("connectDo", "viaDo")}
